@@ -27,6 +27,9 @@ func runC16(c *eng.Ctx) {
 	// (shared with C05) a failed append leaves nothing behind that a later conditional publish could land behind
 	c.Rule("R05.1", "K2")
 	ruleLogThenIndex(c)
+	// (shared with C01/C05) the next offset after a recovery is derived from the index as it is after the repair
+	c.Rule("R05.8", "K5")
+	ruleRecoveredEntryIsTheLastAnswer(c)
 	c.Rule("R16.5", "K1")
 	rulePublishWaitsWhereTheAckDecides(c)
 	// ---- R16.1
